@@ -412,6 +412,10 @@ class LAGenericMacro(Macro):
 
         for coeff, dis_eq in zip(coeffs, dis_eq_step2): 
             lhs, rhs = dis_eq.args
+            if not dis_eq.is_equals() and eval_const(coeff) == 0:
+                # a literal with coefficient 0 does not contribute (in particular not its strictness)
+                dis_eq_step3.append(hol_term.greater_eq(lhs.get_type())(zero, zero))
+                continue
             if not dis_eq.is_equals(): # coeff should be absoluted
                 abs_coeff = hol_term.Real(abs(eval_const(coeff)))
             else:
